@@ -253,6 +253,43 @@ Theorem c08_binary_from_peer : forall raw k (pbs : list (bool * list N)) h,
   map bin_decode (get_all_bin (from_headers h) raw) = map (fun pb => Some (snd pb)) pbs.
 Proof. exact binary_from_peer. Qed.
 
+(* ---- MetadataMap::merge and the trailers it folds ---- *)
+Theorem c08_merge_pointwise : forall m o k,
+  hm_get_all (merge m o) k = match hm_get_all o k with [] => hm_get_all m k | l => l end.
+Proof. exact merge_pointwise. Qed.
+
+(* response trailers of a successful unary / client-streaming call in Response::metadata(), and
+   request trailers in the handler's Request::metadata(): every name of the trailers with all
+   its values in order; a header name the trailers do not use keeps its values *)
+Theorem c08_trailers_merged : forall hdrs t k,
+  (hm_get_all t k <> [] ->
+     hm_get_all (client_unary_response_metadata hdrs (Some t)) k = hm_get_all t k /\
+     hm_get_all (server_unary_request_metadata hdrs (Some t)) k = hm_get_all t k) /\
+  (hm_get_all t k = [] ->
+     hm_get_all (client_unary_response_metadata hdrs (Some t)) k = hm_get_all hdrs k /\
+     hm_get_all (server_unary_request_metadata hdrs (Some t)) k = hm_get_all hdrs k) /\
+  hm_get_all (client_unary_response_metadata hdrs None) k = hm_get_all hdrs k /\
+  hm_get_all (server_unary_request_metadata hdrs None) k = hm_get_all hdrs k.
+Proof. exact trailers_merged. Qed.
+
+Theorem c08_trailers_binary_received : forall hdrs t raw k (pbs : list (bool * list N)),
+  hn_norm raw = Some k -> bin_suffix k = true -> pbs <> [] ->
+  forallb (fun pb => bytes_ok (snd pb)) pbs = true ->
+  hm_get_all t k = map (fun pb => enc (fst pb) (snd pb)) pbs ->
+  map bin_decode (get_all_bin (client_unary_response_metadata hdrs (Some t)) raw) =
+  map (fun pb => Some (snd pb)) pbs.
+Proof. exact trailers_binary_received. Qed.
+
+Theorem c08_error_fold : forall hdrs t m k,
+  client_unary_error_metadata hdrs t = Some m ->
+  hm_get_all m k =
+  match hm_get_all hdrs k with
+  | [] => if bytes_eqb k hdr_grpc_status || bytes_eqb k hdr_grpc_message || bytes_eqb k hdr_grpc_status_details
+          then [] else hm_get_all t k
+  | l => l
+  end.
+Proof. exact error_fold_pointwise. Qed.
+
 (* ---- non-vacuity: a map with a repeated key, a binary key, a forged te / grpc-status and a
    user grpc-encoding, sent by a client configured for gzip ---- *)
 
@@ -300,3 +337,4 @@ Print Assumptions c08_insert_entry_typing.
 Print Assumptions c08_keys_typing.
 Print Assumptions c08_binary_end_to_end.
 Print Assumptions c08_status_metadata_received.
+Print Assumptions c08_trailers_merged.
